@@ -222,11 +222,18 @@ impl Scratch {
 
 impl Drop for Scratch {
     fn drop(&mut self) {
+        if std::env::var_os("VP_KEEP").is_some() {
+            eprintln!("vp: keeping scratch dir {}", self.dir.display());
+            return;
+        }
         let _ = std::fs::remove_dir_all(&self.dir);
     }
 }
 
 pub fn cleanup_scratch_root() {
+    if std::env::var_os("VP_KEEP").is_some() {
+        return;
+    }
     let _ = std::fs::remove_dir_all(scratch_root());
 }
 
